@@ -33,13 +33,15 @@ Reset == /\ IsEvent("reset") /\ signers' = Ev.presigned /\ origlen' = Ev.origlen
          /\ WellFormedOutput(Ev.out, signers', origlen')
 SignOk == /\ IsEvent("sign") /\ Ev.res = "ok" /\ Ev.outcome = "value"
           /\ signers' = Append(signers, Ev.c) /\ WellFormedOutput(Ev.out, signers', origlen) /\ UNCHANGED origlen
+SignFail == /\ IsEvent("signfail") /\ Ev.res = "error" /\ Ev.outcome = "error"
+            /\ WellFormedOutput(Ev.out, signers, origlen) /\ UNCHANGED <<signers, origlen>>     \* nothing was appended
 Reparse == /\ IsEvent("reparse") /\ Ev.res = "ok" /\ WellFormedOutput(Ev.out, signers, origlen) /\ UNCHANGED <<signers, origlen>>
 Signed(c) == \E i \in 1..Len(signers) : signers[i] = c      \* same certificate: issuer+serial and key
 Verify == /\ IsEvent("verify") /\ Ev.outcome \in {"value", "error"}
           /\ (Ev.res = "true" <=> Signed(Ev.c))               \* every signer verifies, nobody else does
           /\ (Ev.res_reparsed = "true" <=> Signed(Ev.c))      \* also on a fresh parse of the serialised bytes
           /\ UNCHANGED <<signers, origlen>>
-Conform == Reset \/ SignOk \/ Reparse \/ Verify
+Conform == Reset \/ SignOk \/ SignFail \/ Reparse \/ Verify
 Deviate == /\ l <= Len(Trace) /\ ~ENABLED Conform
            /\ TLCSet(2, TLCGet(2) \cup {l})
            /\ l' = Ev.nx /\ signers' = <<>> /\ origlen' = 0
